@@ -98,6 +98,11 @@ Definition dispatch (cmd : string) (args : list sexp) : option sexp :=
                 end)
       | _, _, _ => None
       end
+  | "requires-sample", [ks; up] =>
+      match dec_opt dec_keys ks, dec_keys up with
+      | Some ks, Some up => Some (enc_bool (requires_sample ks up))
+      | _, _ => None
+      end
   | "interact", [it; lkj; hasdet; regk; support_real; mode; median; mean; has_rsample] =>
       match dec_itype it, dec_bool lkj, dec_bool hasdet, dec_opt dec_itype regk, dec_opt dec_bool support_real,
             dec_cap mode, dec_cap median, dec_cap mean, dec_bool has_rsample with
